@@ -4,13 +4,13 @@ package main
 // violated clause (the same Go spec function the verifier translated) on the outcome.
 
 import (
-	"regexp"
 	"encoding/json"
 	"fmt"
 	"go/types"
 	"os"
 	"os/exec"
 	"path/filepath"
+	"regexp"
 	"sort"
 	"strconv"
 	"strings"
@@ -49,7 +49,7 @@ type replayGen struct {
 	imports map[string]bool
 	ex      *Exec
 	fail    string
-	streams bool // the test needs the stream harness
+	streams bool     // the test needs the stream harness
 	approx  []string // what the materialisation approximated
 }
 
